@@ -609,6 +609,7 @@ func genTok(rt *rapid.T, mark *int) Tok {
 func genCase(rt *rapid.T) Case {
 	c := Case{Caps: gen.Caps(rt)}
 	c.Caps.OSC52 = rapid.Bool().Draw(rt, "osc52")
+	c.Caps.ColorDigits = rapid.SampledFrom([]int{0, 2, 4}).Draw(rt, "colordigits")
 	c.Caps.Clipboard = rapid.SampledFrom([]string{"", "hello", "x y\n"}).Draw(rt, "clip")
 	c.Opts = vxdrive.Opts{DisableKitty: rapid.Bool().Draw(rt, "nokitty"), DisableMouse: rapid.Bool().Draw(rt, "nomouse")}
 	mark := 0
